@@ -210,6 +210,25 @@ extern "C" void h_partial_decls(void) {
    vp_assert(v.accessors >= 1, 6);
    vp_done();
 }
+// substitutions in every partially filled state: any subset of the parameters of two parameter lists bound (in either order), then
+// every parameter looked up — inside the domain, below / above the bound positions, of the other list: a valid expression or a logic_error
+extern "C" void h_substitution_lookups(void) {
+   zoo::World* w = new zoo::World; auto& lx = w->lx;
+   impl::Mapping* m1 = lx.make_mapping(*w->reg, Mapping_level{ 1 }); impl::Mapping* m2 = lx.make_mapping(*w->reg, Mapping_level{ 2 });
+   const ipr::Parameter* P[5] = { m1->param(*w->N[0], *w->T[0]), m1->param(*w->N[1], *w->T[1]), m1->param(lx.get_identifier(u8"third"), *w->T[2]), m2->param(*w->N[0], *w->T[0]), m2->param(*w->N[1], *w->T[1]) };
+   impl::General_substitution* g = lx.make_general_substitution();
+   unsigned mask = vp_pick(32); bool descending = vp_flag();
+   for (int i = 0; i < 5; ++i) { int k = descending ? 4 - i : i; if (mask & (1u << k)) g->subst(*P[k], *w->E[k % 3]); }
+   const ipr::Substitution& s = *g;
+   for (int k = 0; k < 5; ++k) {
+      const ipr::Expr* r = nullptr; int out = vp_outcome([&] { r = &s[*P[k]]; deref(*r); });
+      vp_assert(out != 2, 8);
+      if (out == 0) vp_assert(r == ((mask & (1u << k)) ? w->E[k % 3] : static_cast<const ipr::Expr*>(P[k])), 9);
+   }
+   const ipr::Substitution& el = *lx.make_elementary_substitution(*P[1], *w->E[0]);
+   for (int k = 0; k < 5; ++k) { const ipr::Expr* r = nullptr; int out = vp_outcome([&] { r = &el[*P[k]]; deref(*r); }); vp_assert(out != 2 && (out != 0 || r == (k == 1 ? w->E[0] : static_cast<const ipr::Expr*>(P[k]))), 10); }
+   vp_done();
+}
 // checked pointers and strings
 extern "C" void h_checked(void) {
    ipr::Optional<ipr::Expr> none; VP_MUST_THROW_LOGIC(none.get(), 200); vp_assert(!none.is_valid() && !none, 201);
